@@ -75,3 +75,33 @@ Definition cls_after (creates deletes : list name) (nn : name) (c : nclass) : nc
 Definition synced (rs : ers) (now : time) (creates deletes : list name) (items items' : list nitem) : Prop :=
   Forall2 (fun i i' => classify rs now i' = cls_after creates deletes (ni_name i) (classify rs now i)) items items'.
 
+(** ** The environment's half of a fair round, as an explicit model of the kubelet and the API server:
+    a pod being deleted is gone, a pod that was created (up to date, not Ready yet) is Ready, nothing else changes -
+    and nothing becomes unresponsive (no scheduler issue appears while the clock moves from [now] to [now']). *)
+Definition cls_settle (c : nclass) : nclass :=
+  match c with OldTerminating => NoPod | UpToDate _ => UpToDate true | c => c end.
+Definition settled (rs : ers) (now now' : time) (items items' : list nitem) : Prop :=
+  Forall2 (fun i i' => classify rs now' i' = cls_settle (classify rs now i)) items items'.
+
+(** ** A fair round on the planning items of the sync model: the environment settles, then the active replica set
+    syncs once and its calls are applied - for ANY admissible choice of the runtime. *)
+Inductive fair_round (rs : ers) (ann : eds_annots) (ru : rolling) : time * list nitem -> time * list nitem -> Prop :=
+| FairRound : forall now items now' items' rp creates deletes items'',
+    settled rs now now' items items' ->                               (* the environment settles; the clock moves *)
+    NoDup (map ni_name items') ->
+    rolling_plan_of rs ann ru now' items' = Ok rp ->                   (* the sync plans on what it reads *)
+    rp_paused rp = false -> rp_frozen rp = false ->
+    1 <= rp_max_creation rp -> 1 <= rp_max_unavailable rp -> 0 <= rp_max_sched_failure rp ->
+    admissible_creates rp creates = true -> admissible_deletes rp deletes = true ->   (* any choice of the runtime *)
+    synced rs now' creates deletes items' items'' ->                    (* its calls are applied *)
+    fair_round rs ann ru (now, items) (now', items'').
+
+(** ** chains of rounds whose limits may differ from round to round (the slow-start ramp grows) *)
+Inductive a_chain : astate -> nat -> astate -> Prop :=
+| ach0 : forall s, a_chain s 0 s
+| achS : forall s maxc mu n s', 1 <= maxc -> 1 <= mu -> a_chain (a_round maxc mu s) n s' -> a_chain s (S n) s'.
+
+(** ... and of fair rounds of the sync model *)
+Inductive c_chain (rs : ers) (ann : eds_annots) (ru : rolling) : time * list nitem -> nat -> time * list nitem -> Prop :=
+| cch0 : forall st, c_chain rs ann ru st 0 st
+| cchS : forall st st1 n st', fair_round rs ann ru st st1 -> c_chain rs ann ru st1 n st' -> c_chain rs ann ru st (S n) st'.
